@@ -6,11 +6,8 @@ namespace JoinModel
 
 /-- what the refinement proof needs to know about a generator context (established for `mkCtx` in Refine.lean) -/
 structure CtxOK (c : Ctx) (names : List (Option String)) : Prop where
-  /-- the async try macros are not covered yet -/
-  asyncNotTry : c.kind.isAsync = true → c.kind.isTry = false
   noJoiner : c.joiner = none
   lazyDefault : c.lazy = c.kind.threads
-  transposeTry : c.kind.isTry = true → c.transpose = true
   nEq : c.n = c.chains.length
   depthsEq : c.depths = c.chains.map (·.length)
   patsLen : c.pats.length = c.n
@@ -93,7 +90,7 @@ theorem genStep_shape (ok : CtxOK c names) (σ : World) (parent : Option String)
     s.elems.map Elem.sem = (c.activeIdx k).map (fun b =>
       (b, c.multi k && c.lazy, c.wrapOf k b, c.varOf b, (specCfgOf σ parent names c).acts b k)) ∧
     ((c.kind.isAsync = false → s.form = .tuple) ∧
-     (c.kind.isAsync = true → s.form = .awaitCat ∨ ∃ j, s.form = .futJoin j false)) ∧
+     (c.kind.isAsync = true → s.form = .awaitCat ∨ ∃ j, s.form = .futJoin j c.kind.isTry)) ∧
     s.tbs = (if c.kind.threads && decide (c.activeCount k ≥ 2) then (c.activeIdx k).map (fun b => (b, b)) else []) ∧
     s.spawnJoin = (if c.kind.threads && decide (c.activeCount k ≥ 2) then some (idxProjs c k) else none) := by
   unfold genStep at h
@@ -180,9 +177,8 @@ theorem genStep_shape (ok : CtxOK c names) (σ : World) (parent : Option String)
       rfl
     · simp only [ok.noJoiner]
       by_cases ha : c.kind.isAsync = true
-      · have ht := ok.asyncNotTry ha
-        by_cases hm : c.activeCount k > 1
-        · simp [ha, ht, hm]
+      · by_cases hm : c.activeCount k > 1
+        · simp [ha, hm]
         · simp [ha, hm]
       · simp [ha]
     · simp [Kind.threads, Bool.and_comm]
